@@ -100,10 +100,15 @@ def _strip(spec):
     return s
 
 
-def _sweep(prop, tier, master, j):
+SWEEP_PARTS = 8
+
+
+def _sweep(prop, tier, master, j, part):
     """Systematic context-bound-2 sweep for one sampled pair (A, B): every
-    preemption point k of A at which B runs to completion before A resumes."""
+    preemption point k of A at which B runs to completion before A resumes.
+    Split into SWEEP_PARTS interleaved slices of k so it spreads over the pool."""
     from . import c16
+    from .workload import call_repr
     ctx = CTX
     rng = random.Random(run_seed(master, prop, tier + '-sweep', j))
     spec = c16.gen_spec(ctx, rng, 'quick', force={'T': 2, 'counts': [1, 1], 'plan': 'one', 'gran': 'line',
@@ -114,13 +119,13 @@ def _sweep(prop, tier, master, j):
         spec['threads'].reverse()
         la, lb = lb, la
     ks = list(range(la + 1))
-    if len(ks) > 3000:
-        ks = sorted(rng.sample(ks, 3000))
+    exhaustive = True
+    if len(ks) > 4000:
+        ks = sorted(rng.sample(ks, 4000))
         exhaustive = False
-    else:
-        exhaustive = True
+    mine = ks[part::SWEEP_PARTS]
     pairs = set()
-    for k in ks:
+    for k in mine:
         spec['plan'] = {'plan': 'one', 'a': 0, 'k': k, 'order': [1]}
         res = ctx.run_threads(spec)
         v = c16.judge(ctx, spec, res)
@@ -131,9 +136,9 @@ def _sweep(prop, tier, master, j):
                           'violation': v2, 'segments': res2['segments'], 'switches': res2['switches'][:200],
                           'results': res2['results'], 'post': res2['post']}
         pairs.update(tuple(p) for p in res['switch_pairs'])
-    from .workload import call_repr
-    return {'A': call_repr(spec['threads'][0][0], 70), 'B': call_repr(spec['threads'][1][0], 70), 'len_A': la, 'len_B': lb,
-            'temp': spec['conf']['temp'], 'points': len(ks), 'exhaustive': exhaustive, 'pairs': sorted(pairs)}, None
+    return {'sweep': j, 'part': part, 'A': call_repr(spec['threads'][0][0], 70), 'B': call_repr(spec['threads'][1][0], 70),
+            'len_A': la, 'len_B': lb, 'temp': spec['conf']['temp'], 'points': len(mine), 'of': len(ks),
+            'exhaustive': exhaustive, 'pairs': sorted(pairs)}, None
 
 
 def _digests(prop, tier, master, idxs):
@@ -348,7 +353,8 @@ def main(argv=None):
         sweep_futs = {}
         if prop == 'C16':
             for j in range(cfg.get('sweeps', 0)):
-                sweep_futs[ex.submit(_sweep, prop, tier, master, j)] = j
+                for part in range(SWEEP_PARTS):
+                    sweep_futs[ex.submit(_sweep, prop, tier, master, j, part)] = (j, part)
         fresh_fut = ex.submit(_fresh_batch, prop, tier, master, cfg['fresh']) if cfg.get('fresh') else None
         allf = list(futs) + list(sweep_futs)
         for f in as_completed(allf):
@@ -374,15 +380,22 @@ def main(argv=None):
                     known_hits.append((sig, viol['violation']['detail']))
                 else:
                     violations.append(viol)
+                    # first violation: stop the batch now (pending futures cancelled, busy workers terminated)
                     for g in allf:
                         g.cancel()
+                    for wp in list(getattr(ex, '_processes', {}).values()):
+                        try:
+                            wp.terminate()
+                        except Exception:
+                            pass
+                    break
             if deadline and time.time() > deadline and not violations:
                 for g in allf:
                     if g.cancel():
                         pass
         fresh_done, fresh_bad = (fresh_fut.result() if fresh_fut is not None and not violations else (0, []))
     finally:
-        ex.shutdown(wait=True, cancel_futures=True)
+        ex.shutdown(wait=not violations, cancel_futures=True)
 
     for sig, detail in sorted(set(known_hits)):
         print('KNOWN-FINDING: property=%s %s %s' % (prop, sig, detail))
